@@ -84,6 +84,9 @@ type GenSpec struct {
 	OutputConstraint *string  `json:"output_constraint,omitempty"`
 	Gomaxprocs       int      `json:"gomaxprocs,omitempty"`
 	Umask            int      `json:"umask,omitempty"` // 0 → 022
+	// Env overrides process environment variables of the node (ambient state that must not
+	// reach the output: USER, HOME, LANG, TZ, HOSTNAME …).
+	Env map[string]string `json:"env,omitempty"`
 	// Canon is the canonical pattern list of the current input version (for the reference
 	// model); default: the world's patterns.
 	Canon []string `json:"canon,omitempty"`
